@@ -62,12 +62,37 @@ def copyData (a0 : Int) (src : Dir) (rechunk : Bool) (rechunkTo : Nat) : Except 
   let loaded ← loadDir src
   saveAll a0 rechunk hdr (loaded.map (setTarget hdr.target))
 
+/-- In the current source the loader generator is created INSIDE the `for t_sf in target_sf` loop
+("Need to load a new loader each time since it's a generator and will be exhausted otherwise");
+`false` is the variant with one loader created before the loop and shared by all targets. -/
+def loaderPerTarget : Bool := true
+
+/-- the `for t_sf in target_sf:` loop of `copy_to_frontend`.  A loader is a generator: `shared` is
+what a loader created OUTSIDE the loop still has to yield.  Per target: `loader = s_be.loader(…)`
+(only when `fresh`), then `saver.save_from(wrapped_loader(), rechunk)` which consumes the loader to
+exhaustion.  An exception (other than NotImplementedError) leaves the loop: the remaining targets
+are not filled. -/
+def copyLoop (a0 : Int) (src : Dir) (hdr : Header) (rechunk fresh : Bool) : List Chunk → Nat → List (Except Err Dir)
+  | _, 0 => []
+  | shared, n + 1 =>
+    let loader : Except Err (List Chunk) := if fresh then loadDir src else .ok shared
+    match loader with
+    | .error e => [.error e]
+    | .ok cs =>
+      match saveAll a0 rechunk hdr (cs.map (setTarget hdr.target)) with
+      | .error e => [.error e]
+      | .ok d => .ok d :: copyLoop a0 src hdr rechunk fresh [] n      -- the saver exhausted the generator
+
 /-- `copy_to_frontend(run, target, target_frontend_id=None)`: every frontend that does not have the
-data yet, takes it and is writable is filled in turn.  A NEW loader is created inside the loop for
-every target ("it's a generator and will be exhausted otherwise"), so each of the `nTargets`
-destinations is a full `copyData` of the source. -/
-def copyToAll (a0 : Int) (src : Dir) (rechunk : Bool) (rechunkTo : Nat) (nTargets : Nat) : List (Except Err Dir) :=
-  List.replicate nTargets (copyData a0 src rechunk rechunkTo)
+data yet, takes it and is writable is filled in turn; one result per target reached. -/
+def copyToAll (a0 : Int) (fresh : Bool) (src : Dir) (rechunk : Bool) (rechunkTo : Nat) (nTargets : Nat) :
+    List (Except Err Dir) :=
+  let hdr := copyHeader src.1.hdr rechunk rechunkTo
+  if fresh then copyLoop a0 src hdr rechunk true [] nTargets
+  else
+    match loadDir src with
+    | .error e => if nTargets = 0 then [] else [.error e]
+    | .ok cs => copyLoop a0 src hdr rechunk false cs nTargets
 
 /-! ## 2. the stand-alone rechunker over a store of directories -/
 
